@@ -370,6 +370,11 @@ def run(ctx):
                      note="safety + rate envelope, bounded clock")
     vlib.model_check(ctx, "MC_Pacer.tla", vlib.cfg_variant(ctx, "MC_Pacer_live.cfg", np_), workers=4 if quick else 8,
                      timeout=3000, note="liveness under WF(Tick) and WF(Release), no state constraint")
+    if not quick:
+        vlib.model_check(ctx, "MC_Pacer.tla", vlib.cfg_variant(ctx, "MC_Pacer.cfg", {"NP": 3, "MaxRC": 2, "MaxT": 10}), workers=8,
+                         timeout=3000, note="safety + envelope, two rate changes")
+        vlib.model_check(ctx, "MC_Pacer.tla", vlib.cfg_variant(ctx, "MC_Pacer_live.cfg", {"NP": 3, "MaxRC": 2}), workers=8,
+                         timeout=3000, note="liveness, two rate changes")
     vlib.model_check(ctx, "MC_Pacer.tla", vlib.cfg_variant(ctx, "MC_Pacer_leaky.cfg", np_), workers=2,
                      note="gcc pacer: stream 2 has no writer, its packets are refused")
     vlib.model_check(ctx, "MC_Pacer.tla", "MC_Pacer_neg_oversize.cfg", workers=4,
@@ -382,7 +387,7 @@ def run(ctx):
     L = 2 if quick else 3
     beh_tb = gen(ctx, "Gen_Pacer.cfg", {"L": L})
     beh_gcc = gen(ctx, "Gen_Pacer_gcc.cfg", {"L": L})
-    n_tb, n_gcc, n_over = (500, 250, 4) if quick else (6000, 2500, 24)
+    n_tb, n_gcc, n_over = (1200, 500, 4) if quick else (10 ** 6, 10 ** 6, 400)
     tb = [script_from_behaviour("pacing", b) for b in beh_tb]
     tb, over = cap_oversize(rng, tb, n_over)
     if len(tb) > n_tb:
@@ -393,13 +398,13 @@ def run(ctx):
         sel = beh_gcc if len(beh_gcc) <= n_gcc else rng.sample(beh_gcc, n_gcc)
         gcc += [script_from_behaviour(kind, b) for b in sel]
     # (T) random single-producer histories and concurrent producers
-    ns, ln, nc, per = (24, 60, 16, 25) if quick else (200, 120, 120, 40)
+    ns, ln, nc, per = (24, 60, 16, 25) if quick else (900, 120, 600, 40)
     t_tb = [random_single(rng, "pacing", ln) for _ in range(ns)]
-    t_tb, over2 = cap_oversize(rng, t_tb, 2 if quick else 12)
+    t_tb, over2 = cap_oversize(rng, t_tb, 2 if quick else 20)
     t_gcc = [random_single(rng, k, ln) for k in ("leaky", "leaky", "noop") for _ in range(ns // 3)]
     c_tb = [random_concurrent(rng, "pacing", rng.choice([2, 3, 4]), per) for _ in range(nc)]
     c_gcc = [random_concurrent(rng, k, rng.choice([2, 3, 4]), per) for k in ("leaky", "noop") for _ in range(nc // 2)]
-    no, nsw = (8, 8) if quick else (60, 60)
+    no, nsw = (8, 8) if quick else (300, 300)
     x_tb = [overflow_script(rng) for _ in range(no)] + [slow_writer_script(rng, "pacing") for _ in range(nsw)]
     x_gcc = [slow_writer_script(rng, "leaky") for _ in range(nsw // 2)]
     run_batches(ctx, [
@@ -412,7 +417,7 @@ def run(ctx):
         "Pacer.tla is the reading of the property; acceptance = Write returned nil; the stream of a packet is the bound stream "
         "(pacing interceptor) or its header SSRC (gcc pacers, which have one Write for all streams)",
         "the harness writer's timestamp of a release is never earlier than the limiter's own clock for that release, so "
-        "released bits <= largest burst + sum rate*ceil(elapsed ms) is a sound upper bound; envelope restarted at quiescent points",
+        "released bits <= largest burst + sum rate*ceil(elapsed ms), cumulative from the start of the script, is a sound upper bound",
         "liveness: a packet is reported stuck only after 3x the token model's need + 2 s and a second wait of the same length (>= 3 s) in which nothing at all was released",
         "burst allowance = max(12000 bits, rate x tick interval) for tick intervals dividing 1000 ms; rate > 0",
     ]
